@@ -320,9 +320,12 @@ def main(argv=None):
         both = {(x.get("label"), json.dumps(x.get("values"), sort_keys=True, default=str)) for x in allmm if x.get("kind") == "const-goal"} & \
                {(x.get("label"), json.dumps(x.get("values"), sort_keys=True, default=str)) for x in allmm if x.get("kind") == "float-goal"}
         promoted = set()
+        exact_fail = bool(r["violations"]) or any(x.get("kind") == "const-goal" for x in allmm)
         for x in allmm:
             key = (x.get("label"), json.dumps(x.get("values"), sort_keys=True, default=str))
-            if key in both and key not in promoted and not match_known(known, prop, r["case"], x.get("label", "")):
+            # a clause that fails on a sampled input of the real code is reported when the exact model of the SAME case also has a failing clause
+            # (same label and input, or -- clauses are phrased per mode -- any clause of the case)
+            if (key in both or (x.get("kind") == "float-goal" and exact_fail)) and key not in promoted and not match_known(known, prop, r["case"], x.get("label", "")):
                 # the clause fails on a concrete input both in exact rational arithmetic (patched code) and on the real code: a replayable counterexample
                 promoted.add(key)
                 rec = dict(property=prop, case=r["case"], body=r["body"], kwargs=r["kwargs_raw"], label=x["label"], values=x["values"])
